@@ -14,7 +14,9 @@ TInit == /\ t \in 1 .. NT /\ l = 2 /\ devs = {}
          /\ hv = H.hv /\ target = H.target /\ val = hv /\ jit = H.jit
          /\ status = "idle" /\ mode = "wait" /\ sp = 0
          /\ shape = H.shape /\ ramp = H.ramp
-         /\ xp = 0 /\ last = [op |-> "none"]
+         /\ xp = 0 /\ H.x0 = 0 /\ last = [op |-> "none"]
+         \* the HasOffset feature: announced as a feature, offset in the unit of the value
+         /\ H.xunit /\ (H.feature <=> H.xpar = "offset")
 
 TStep ==
   /\ l <= Len(Traces[t])
@@ -22,7 +24,7 @@ TStep ==
   /\ \/ /\ Ev.ev = "target"
         /\ \/ SetTarget(Ev.T) /\ UNCHANGED devs
            \/ Dev_LateBusy(Ev.T) /\ devs' = devs \cup {"Dev_LateBusy"}
-        /\ status' = Ev.status /\ target' = Ev.target
+        /\ status' = Ev.status /\ target' = Ev.target /\ val' = Ev.val
      \/ /\ Ev.ev = "stop"
         /\ \/ Stop /\ UNCHANGED devs
            \/ Dev_LateBusy(val) /\ devs' = devs \cup {"Dev_LateBusy"}
